@@ -31,7 +31,7 @@ func (e *Env) buildConcPlan(id int) *c12proc {
 	m := e.Model
 	G := []int{2, 4, 8, 16, 64}[id%5]
 	p := &c12proc{id: id, stagger: (id/5)%2 == 1}
-	p.conc = &plan.Conc{GoMaxProcs: []int{1, 2, 4, 16}[(id/10)%4]}
+	p.conc = &plan.Conc{GoMaxProcs: []int{1, 2, 4, 16, 3, 6}[(id/10)%6]}
 	// languages contended in this process: a seed-chosen subset so that several
 	// goroutines hit the same language first while others hit different ones
 	nl := 1 + r.Intn(4)
@@ -220,7 +220,7 @@ func (e *Env) buildStressPlan(id, loops int) *c12proc {
 		{Fn: "seed", S: hxs(m1 + " tail"), P: hxs("")},
 	}
 	p := &c12proc{id: 100000 + id, stress: true}
-	p.conc = &plan.Conc{GoMaxProcs: []int{16, 4, 8, 2}[id%4], Loops: loops}
+	p.conc = &plan.Conc{GoMaxProcs: []int{16, 4, 8, 2, 5, 12}[id%6], Loops: loops}
 	G := []int{16, 8, 12}[id%3]
 	if id%8 == 5 || id%8 == 2 {
 		// seed stress: every goroutine derives the same few seeds, and encodes, again and again
@@ -342,6 +342,12 @@ func checkC12(e *Env) {
 		}
 		if harnessOnly > 0 {
 			fatalInconclusive("C12: the race detector reports a race in the harness itself (no frame of the package): fix the harness")
+		}
+		if v, inc := cr.hang(); v != "" {
+			viol(v, cr.Stderr)
+			return
+		} else if inc != "" {
+			fatalInconclusive("C12: cold-start process %d: %s", p.id, inc)
 		}
 		if strings.Contains(cr.Stderr, "fatal error:") || cr.ExitErr != "" && len(cr.Results) == 0 {
 			viol("the process died: "+oneLine(cr.Stderr+" "+cr.ExitErr, 400), cr.Stderr)
@@ -611,7 +617,7 @@ func (e *Env) concurrentSmoke(drv, label string, pool []plan.Op, procs, loops in
 	var mu sync.Mutex
 	parallel(procs, max(1, e.Workers/4), func(pi int) {
 		r := rng.New(e.Seed, label+"-conc-"+itoa(pi))
-		c := &plan.Conc{GoMaxProcs: []int{16, 4, 2, 8}[pi%4], Loops: loops}
+		c := &plan.Conc{GoMaxProcs: []int{16, 4, 2, 8, 3, 6}[pi%6], Loops: loops}
 		G := []int{8, 16, 12}[pi%3]
 		for w := 0; w < G; w++ {
 			var ops []plan.Op
@@ -627,6 +633,20 @@ func (e *Env) concurrentSmoke(drv, label string, pool []plan.Op, procs, loops in
 			e.Violate(&Violation{What: fmt.Sprintf("%d goroutines calling concurrently from a cold start (GOMAXPROCS %d): %s", G, c.GoMaxProcs, what), Conc: c, Detail: detail})
 		}
 		own := smokeOwnFuncs[label]
+		if v, inc := cr.hang(); v != "" {
+			// calls that never return are this monitor's business when one of its own
+			// functions is among the blocked ones
+			if len(own) > 0 && !ownBlocked(v, own) {
+				mu.Lock()
+				smokeBystanderCrashes++
+				mu.Unlock()
+				return
+			}
+			viol(v, cr.Stderr)
+			return
+		} else if inc != "" {
+			fatalInconclusive("%s: concurrent process: %s", label, inc)
+		}
 		if cr.Trailer == nil {
 			// a crash is this monitor's business only when it happened inside a function its
 			// property speaks about (C12 and C14 are about every function)
@@ -686,6 +706,16 @@ var smokeOwnFuncs = map[string][]string{
 }
 
 var smokeBystanderCrashes int
+
+// ownBlocked reports whether the summary of blocked goroutines names one of the functions.
+func ownBlocked(summary string, funcs []string) bool {
+	for _, f := range funcs {
+		if f != "-" && strings.Contains(summary, f) {
+			return true
+		}
+	}
+	return false
+}
 
 // crashInside reports whether the stack of the goroutine that crashed (the first
 // "[running]" goroutine of a fatal error or panic dump, or the whole text of a recovered
